@@ -19,6 +19,7 @@ are named `@<n>` (the n-th receive op of the case) when known.
     garble <tok> <kind> <pos> | copy <dst> <src> | swap <a> <b> | drop <tok> | plant M|E <src>
     snap | restore
     restart keep|wipe <M-tokens in arrival order, comma separated | ->
+    fault E|M <k>                 the k-th next ReceiveBlob of that wrapped store fails once (0 disarms)
 -/
 namespace Pk.Drv.C11
 open Pk Pk.SMap Pk.Encrypt
@@ -260,6 +261,13 @@ def step (d : D) (ws : List String) : D × String :=
           else
             ({ d with s := { d.s with blobs := ins n c d.s.blobs }, eNames := addName d.eNames n }, "ok")
         | none => (d, "noblob"))
+     | none => (d, "bad-op"))
+  | ["fault", st, k] =>
+    (match k.toNat? with
+     | some n =>
+       if st == "E" then ({ d with s := { d.s with failBlobs := n } }, "ok")
+       else if st == "M" then ({ d with s := { d.s with failMeta := n } }, "ok")
+       else (d, "bad-op")
      | none => (d, "bad-op"))
   | ["snap"] => ({ d with saved := some (d.s.blobs, d.s.metas) }, "ok")
   | ["restore"] =>
